@@ -96,6 +96,21 @@ def magnitude(term, env):
     return sum(abs(v) for v in vals if rp.mp.isfinite(v))
 
 
+def magnitude_uf(term, env, ufs):
+    adds = []
+    stack = [term]
+    while stack:
+        t = stack.pop()
+        if t.op in ('add', 'sub'):
+            stack.extend(t.a)
+        elif t.op == 'neg':
+            stack.append(t.a[0])
+        else:
+            adds.append(t)
+    vals = tm.evalf(adds[:400], env, rp.mp, ufs)
+    return sum(abs(v) for v in vals if rp.mp.isfinite(v))
+
+
 def rand_env(rng, names, coords, ranges=None):
     env = {}
     for n in sorted(names):
